@@ -18,10 +18,12 @@ def judge_fn(x, y, a, c, resp):
     if resp["r"] != "ok":
         return "abort", resp.get("e", "")[:60]
     n, spread, comm = (int(v) for v in resp["v"])
-    if n * (x + a) <= y * a and (x == 0 or y - n > 0 or y == 0):
+    if n * (x + a) <= y * a and (y - n > 0 or y == 0):
         return "ok", None
     if known.c01_window(x, y, a, c, gross=n + comm, comm=comm):
         return "known", "n=%d > g=%d*%d/%d" % (n, y, a, x + a)
+    if n * (x + a) <= y * a:
+        return "violation", "returned %d empties the ask reserve %d (offer_pool=%d, offer=%d, commission %d)" % (n, y, x, a, comm)
     return "violation", "returned %d exceeds ask*offer/(offer_pool+offer) = %d*%d/%d (commission %d)" % (n, y, a, x + a, comm)
 
 
